@@ -162,10 +162,16 @@ def build_harness(name, variant="asan", key=None):
     vdir = os.path.join(BUILD, key, variant)
     exe = os.path.join(vdir, "%s-%s" % (name, hh))
     objdir = os.path.join(BUILD, "obj", variant)
-    obj = os.path.join(objdir, "%s-%s-%s.o" % (name, hh, ih))
+    obj = os.path.join(objdir, "%s-%s-%s-g1.o" % (name, hh, ih))
     v = VARIANTS[variant]
     flags = list(v["flags"])
     libs = ["-lpthread"]
+    # harness translation units: line tables only and (for the g++ variants) no
+    # UBSan -- the library objects keep full UBSan; this halves the compile time
+    hflags = ["-g1" if f == "-g" else f for f in flags]
+    if variant != "fuzz":
+        hflags = [f.replace("-fsanitize=address,undefined", "-fsanitize=address") for f in hflags
+                  if f != "-fno-sanitize-recover=undefined"]
     if variant == "fuzz":
         link_flags = [f.replace("fuzzer-no-link", "fuzzer") for f in flags]
     else:
@@ -181,7 +187,7 @@ def build_harness(name, variant="asan", key=None):
                     except OSError:
                         pass
             tmp = obj + ".tmp"
-            run([v["cxx"]] + flags + ["-I", os.path.join(REPO, "include"), "-I", HARNESS_DIR, "-c",
+            run([v["cxx"]] + hflags + ["-I", os.path.join(REPO, "include"), "-I", HARNESS_DIR, "-c",
                                         os.path.join(HARNESS_DIR, src), "-o", tmp], None)
             os.rename(tmp, obj)
         else:
